@@ -1023,12 +1023,24 @@ package tcell
 //@   ensures [recorded] t.mouseFlags == 0
 //@   modifies t.mouseFlags, t.buf, t.Mutex
 
+// enableMouse: every tracking mode is switched off first, then exactly the modes of the requested classes are switched
+// on (1000 buttons, 1002 drag, 1003 motion) together with SGR coordinates (1006) if any class was asked for; a
+// terminal without mouse support gets nothing.
 //@ func (*tScreen).enableMouse
-//@   arith math
+//@   arith bv
+//@   calls [modes] call(TPuts, recv, str, ret) ==> str == "\x1b[?1000l\x1b[?1002l\x1b[?1003l\x1b[?1006l" ||
+//@        (str == "\x1b[?1000h" && f&MouseButtonEvents != 0) || (str == "\x1b[?1002h" && f&MouseDragEvents != 0) ||
+//@        (str == "\x1b[?1003h" && f&MouseMotionEvents != 0) || (str == "\x1b[?1006h" && f&(MouseButtonEvents|MouseDragEvents|MouseMotionEvents) != 0)
+//@   ensures [count] len(t.mouse) != 0 ==> calls(TPuts) == 1 + (f&MouseButtonEvents != 0 ? 1 : 0) + (f&MouseDragEvents != 0 ? 1 : 0) +
+//@        (f&MouseMotionEvents != 0 ? 1 : 0) + (f&(MouseButtonEvents|MouseDragEvents|MouseMotionEvents) != 0 ? 1 : 0)
+//@   ensures [unsupported] len(t.mouse) == 0 ==> calls(TPuts) == 0
 //@   modifies t.buf
 
+// enablePasting: the description's own on / off string, and nothing if it has none.
 //@ func (*tScreen).enablePasting
 //@   arith math
+//@   calls [which] call(TPuts, recv, str, ret) ==> str == (on ? t.enablePaste : t.disablePaste) && str != ""
+//@   ensures [once] calls(TPuts) <= 1
 //@   modifies t.buf
 
 //@ func (*tScreen).enableFocusReporting
